@@ -157,6 +157,32 @@ ADDENDA = {
  'C20': '',
 }
 
+# rounds 7 and 8 of the seeded-change evaluation (DESIGN 10.6)
+ADDENDA2 = {
+ 'C01': ' Values that end in white space before the separator.',
+ 'C02': ' Processing-instruction sites; full-width and small-form look-alikes of the markup characters; a bytes result is decoded and judged.',
+ 'C03': ' Processing-instruction bodies with quotes and question marks; look-alike namespace URIs.',
+ 'C04': ' Comprehension shapes in python: expressions; import: of modules with side effects, of attributes that shadow a submodule; attribute-context insertion judged with attribute escaping.',
+ 'C05': '',
+ 'C06': ' Expressions written over several lines; plain names with padding; implicit attribute translation in effect (alternate-model classifier for the open finding).',
+ 'C07': ' Unquoted paths and two interpolations in one static value; a translation-block twin.',
+ 'C08': ' Re-entrant renders of one template from inside its own loop; loop variables named like generated-code names; dict views and string keys as iterables.',
+ 'C09': ' Uses inside macros; whole templates used as macros; fallbacks and names with characters outside identifiers (alternate-model classifier for the open finding); duplicate names in translation blocks.',
+ 'C10': ' Settings made inside an element that tal:on-error then replaces; settings across a macro boundary (both repaired in /repo, see known_findings.json); exotic white space; doubled dollars.',
+ 'C11': ' A case separated from its switch by a macro (structural classifier for the open finding).',
+ 'C12': ' Failures while a literal is put to use; exception classes that cannot be combined with RenderError (alternate-model classifier); the OSError family with its own constructor conventions.',
+ 'C13': ' The same handler failing repeatedly; globals defined in an abandoned element; start-tag options of the fallback.',
+ 'C14': ' Instances of one class differing only in configuration; mutable literals; file histories.',
+ 'C15': ' A debug-mode file name carrying a coding cookie; long-lived loader objects.',
+ 'C16': ' Search paths mixing package, zip and directory entries.',
+ 'C17': ' Charset labels in several spellings; texts on which the candidate codecs disagree.',
+ 'C18': ' The same tag text under two bindings of its prefix; options handed down a load: chain; look-alike namespace declaration pairs.',
+ 'C19': ' The non-strict error is compared with the strict one in message, token, offset and file name; unknown expression types; METAL and error-handler sites.',
+ 'C20': ' Long flat templates of several hundred parts; files starting with a byte-order mark; expressions over several lines.',
+}
+DEBUG_SHARDS = {'C01', 'C02', 'C04', 'C06', 'C07', 'C08', 'C09', 'C10', 'C13', 'C18'}
+DEBUG = ' One shard in eight runs the engine in debug mode (CHAMELEON_DEBUG; counted in the evidence).'
+
 NOT_YET = {}
 
 def main():
@@ -174,7 +200,7 @@ def main():
             'replay_cmd_template': './vcheck %s --replay {path}' % pid,
             'engine': engine,
             'technique': tech,
-            'level_claimed': {'category': cat, 'text': text + ADDENDA.get(pid, '') + HISTORY + (ROUTES if pid in USES_ROUTES else ''), 'design_ref': ref},
+            'level_claimed': {'category': cat, 'text': text + ADDENDA.get(pid, '') + ADDENDA2.get(pid, '') + HISTORY + (ROUTES if pid in USES_ROUTES else '') + (DEBUG if pid in DEBUG_SHARDS else ''), 'design_ref': ref},
             'level_note': note,
         })
     not_app = []
